@@ -94,6 +94,9 @@ int main(int argc, char** argv) {
       for (int k = 0; k < 3; k++) {
         IntervalVector box = gen_box(r, b.nvar);
         if (r.coin(50)) { IntervalVector other = gen_box(r, b.nvar); try { f.eval_domain(other); } catch (...) {} }   // history: an unrelated evaluation first
+        if (r.coin(40)) { // history: an evaluation that is likely to leave the definition domain (empty result, exception path)
+          IntervalVector bad(b.nvar); double c = r.coin() ? -64.0 : (r.coin() ? 64.0 : 0.0); for (int i = 0; i < b.nvar; i++) bad[i] = Interval(c - r.range(0, 4), c + (r.coin() ? 0 : r.range(0, 4)));
+          try { Domain e = f.eval_domain(bad); (void)e; } catch (...) {} }
         Domain res = f.eval_domain(box);
         check_round_up("eval");
         EMIT("evalcert %s %s => %s\n", b.dag.c_str(), tok(box).c_str(), res.is_empty() ? "EMPTY" : domains_token(f, f.expr(), f.args()).c_str());
